@@ -9,6 +9,7 @@
   for the primitives only.
 -/
 import TmVerif.Sched.Upd
+import TmVerif.Sched.Skel
 
 namespace TmVerif.Sched
 
@@ -106,7 +107,8 @@ inductive LPrim : Lab → Cell → Cell → Prop
   | forgetIdentity {c a k g grp} : c.app? a.id = some a → a.identity = some k → a.group = some g →
       c.grp? g = some grp → k ≥ grp.count →
       LPrim (.forgetIdentity a.id) c (c.setApp { a with identity := none })
-  | tree {c t} : LPrim .tree c { c with tree := t }
+  /-- spread cursors only (the `Bucket.put` search) -/
+  | tree {c t} : t.skel = c.tree.skel → LPrim .tree c { c with tree := t }
   | clearEv {c} : LPrim .clearEv c { c with apps := c.apps.map (fun a => { a with evFrom := none }) }
 
 /-- Unlabelled primitive. -/
